@@ -7,15 +7,19 @@
     then decrements by one on every CAh; the offset of the next partial read is the number
     of bytes collected so far; the loop ends when ≥ 16 bytes are there; `SelEntry` then
     demands exactly 16 bytes and a known record type (else DecodingError).
-    `max_req_len` is a Python int and may go below zero on a peer that refuses every length;
-    here it saturates at 0 – the two differ only on a device with partial-read limit 0,
-    which is outside the property (limits 1..16) and never generated.
+    `max_req_len` is a Python int: as shipped nothing stops the decrement, after 1 come 0, −1, −2 …
+    which `UnsignedInt.encode` puts on the wire modulo 256 (00, FF, FE …) - the model keeps it as
+    an `Int` and sends `wireByte`.  `Variant.floor = some F` is the repaired loop: `if
+    self.max_req_len <= F: raise RetryError()` behind the decrement.
   * `sel_entries`: Get SEL Info (empty log ⇒ nothing), Reserve SEL, then the next-record
     chain from 0 until FFFFh.
   * `get_and_clear_sel_entry`: reserve / read / delete, all three repeated when the read or
-    the delete is answered C5h.  Its fuel is an argument: it has to exceed the number of
-    cancellations the peer will produce (the loop really does not terminate otherwise).
-  * constants come from the source through `Cfg` (Gen/Loops10.lean).
+    the delete is answered C5h.  As shipped it is `while True` (`Variant.budget = none`): the
+    recursion argument is fuel and running out of it is `pyError "nontermination"` - a peer that
+    cancels every reservation is never given up on.  Repaired (`budget = some N`, N the default) it is
+    `while retry > 0: retry -= 1 … raise RetryError()`: the recursion argument IS `retry`.
+  * constants come from the source through `Cfg`, the variant through `Variant` (Gen/Loops10.lean);
+    the harness probes the variant on the real code.
 -/
 import PyIpmi.Base.Outcome
 import PyIpmi.Base.Bytes
@@ -34,6 +38,19 @@ structure Cfg where
   first : Nat           -- START_SEL_RECORD_ID
   last : Nat            -- END_SEL_RECORD_ID
   deriving Repr, DecidableEq, Inhabited
+
+/-- The two places where the pinned and the repaired pyipmi/sel.py differ. -/
+structure Variant where
+  /-- get_sel_entry: `if self.max_req_len <= F: raise RetryError()` behind `self.max_req_len -= 1`
+  (`none`: as shipped, the length is lowered without end) -/
+  floor : Option Int
+  /-- get_and_clear_sel_entry(record_id, retry=N) runs on a retry budget and ends in RetryError:
+  `some N` (`none`: `while True`, no such parameter) -/
+  budget : Option Nat
+  deriving Repr, DecidableEq, Inhabited
+
+def Variant.asShipped : Variant := ⟨none, none⟩
+def Variant.intended : Variant := ⟨some 0, some 5⟩
 
 def infoReq : Wire := ⟨0x40, []⟩
 def reserveReq : Wire := ⟨0x42, []⟩
@@ -76,33 +93,48 @@ def selEntry (data : List Nat) (next : Nat) : Outcome (List Nat × Nat) :=
     let t := data.getD 2 0
     if t = 2 ∨ (0xC0 ≤ t ∧ t < 0x100) then .ok (data, next) else .decodingError
 
+/-- `UnsignedInt.encode` of a one-byte field: `value >> 0 & 0xff` of a Python int. -/
+def wireByte (i : Int) : Nat := (i % 256).toNat
+
 /-- `req.length = self.max_req_len`, clamped to the end of the record for partial reads. -/
-def reqLen (cfg : Cfg) (maxReq off : Nat) : Nat :=
-  if maxReq ≠ cfg.entire ∧ off + maxReq > cfg.recLen then cfg.recLen - off else maxReq
+def reqLen (cfg : Cfg) (maxReq : Int) (off : Nat) : Int :=
+  if maxReq ≠ (cfg.entire : Int) ∧ (off : Int) + maxReq > (cfg.recLen : Int) then (cfg.recLen : Int) - (off : Int)
+  else maxReq
+
+/-- The CAh branch: `max_req_len = 16` after the whole-record request, else `max_req_len -= 1`
+(and, repaired, RetryError = `none` once that is at or below the floor). -/
+def shrink (cfg : Cfg) (v : Variant) (maxReq : Int) : Option Int :=
+  if maxReq = (cfg.entire : Int) then some (cfg.full : Int)
+  else
+    match v.floor with
+    | some f => if maxReq - (cfg.step : Int) ≤ f then none else some (maxReq - (cfg.step : Int))
+    | none => some (maxReq - (cfg.step : Int))
 
 /-- The `while True` loop of `get_sel_entry`. -/
-def entryLoop {σ} (cfg : Cfg) (send : Send σ) :
-    Nat → World σ → (res rid maxReq : Nat) → (acc : List Nat) → Res σ (List Nat × Nat)
+def entryLoop {σ} (cfg : Cfg) (v : Variant) (send : Send σ) :
+    Nat → World σ → (res rid : Nat) → (maxReq : Int) → (acc : List Nat) → Res σ (List Nat × Nat)
   | 0, w, _, _, _, _ => ⟨w, .pyError "nontermination"⟩
   | fuel + 1, w, res, rid, maxReq, acc =>
     let off := acc.length
     let len := reqLen cfg maxReq off
-    let r := xchg send w (getReq res rid off len)
+    let r := xchg send w (getReq res rid off (wireByte len))
     match decodeGetRsp r.2 with
     | .ok (cc, next, data) =>
       if cc = cfg.ccShrink then
-        entryLoop cfg send fuel r.1 res rid (if maxReq = cfg.entire then cfg.full else maxReq - cfg.step) acc
+        match shrink cfg v maxReq with
+        | some m => entryLoop cfg v send fuel r.1 res rid m acc
+        | none => ⟨r.1, .retryError⟩
       else if cc ≠ 0 then ⟨r.1, .ccError cc⟩
       else if (acc ++ data).length ≥ cfg.recLen then ⟨r.1, selEntry (acc ++ data) next⟩
-      else entryLoop cfg send fuel r.1 res rid maxReq (acc ++ data)
+      else entryLoop cfg v send fuel r.1 res rid maxReq (acc ++ data)
     | e => ⟨r.1, castErr e⟩
 
 def entryFuel : Nat := 64
 
 /-- `get_sel_entry(record_id, reservation)` → (entry bytes, next record id). -/
-def getSelEntry {σ} (cfg : Cfg) (send : Send σ) (w : World σ) (rid res : Nat) :
+def getSelEntry {σ} (cfg : Cfg) (v : Variant) (send : Send σ) (w : World σ) (rid res : Nat) :
     Res σ (List Nat × Nat) :=
-  entryLoop cfg send entryFuel w res rid cfg.entire []
+  entryLoop cfg v send entryFuel w res rid (cfg.entire : Int) []
 
 /-- `get_sel_reservation_id`. -/
 def reserve {σ} (send : Send σ) (w : World σ) : Res σ Nat :=
@@ -115,21 +147,21 @@ def deleteEntry {σ} (send : Send σ) (w : World σ) (rid res : Nat) : Res σ Na
   ⟨r.1, decodeU16Rsp r.2⟩
 
 /-- The `while True` of `sel_entries`. -/
-def walk {σ} (cfg : Cfg) (send : Send σ) :
+def walk {σ} (cfg : Cfg) (v : Variant) (send : Send σ) :
     Nat → World σ → (res next : Nat) → (acc : List (List Nat)) → Res σ (List (List Nat))
   | 0, w, _, _, _ => ⟨w, .pyError "nontermination"⟩
   | fuel + 1, w, res, next, acc =>
-    let r := getSelEntry cfg send w next res
+    let r := getSelEntry cfg v send w next res
     match r.out with
     | .ok (e, nx) =>
       if nx = cfg.last then ⟨r.w, .ok (acc ++ [e])⟩
-      else walk cfg send fuel r.w res nx (acc ++ [e])
+      else walk cfg v send fuel r.w res nx (acc ++ [e])
     | e => ⟨r.w, castErr e⟩
 
 def walkFuel : Nat := 65537
 
 /-- `get_sel_entries()` = `list(sel_entries())`. -/
-def selEntries {σ} (cfg : Cfg) (send : Send σ) (w : World σ) : Res σ (List (List Nat)) :=
+def selEntries {σ} (cfg : Cfg) (v : Variant) (send : Send σ) (w : World σ) : Res σ (List (List Nat)) :=
   let i := xchg send w infoReq
   match decodeInfoRsp i.2 with
   | .ok n =>
@@ -137,27 +169,34 @@ def selEntries {σ} (cfg : Cfg) (send : Send σ) (w : World σ) : Res σ (List (
     else
       let r := reserve send i.1
       match r.out with
-      | .ok res => walk cfg send walkFuel r.w res cfg.first []
+      | .ok res => walk cfg v send walkFuel r.w res cfg.first []
       | e => ⟨r.w, castErr e⟩
   | e => ⟨i.1, castErr e⟩
 
-/-- `get_and_clear_sel_entry(record_id)`. -/
-def getAndClear {σ} (cfg : Cfg) (send : Send σ) :
+/-- What the loop of `get_and_clear_sel_entry` ends with when its recursion argument is used up:
+the retry budget is exhausted (repaired), or the model ran out of fuel on a `while True` that
+would go on (as shipped). -/
+def gacExhausted (v : Variant) : Outcome (List Nat) :=
+  if v.budget.isSome then .retryError else .pyError "nontermination"
+
+/-- `get_and_clear_sel_entry(record_id, retry)`; the first argument is `retry` for the repaired
+variant and fuel for the pinned one. -/
+def getAndClear {σ} (cfg : Cfg) (v : Variant) (send : Send σ) :
     Nat → World σ → (rid : Nat) → Res σ (List Nat)
-  | 0, w, _ => ⟨w, .pyError "nontermination"⟩
+  | 0, w, _ => ⟨w, gacExhausted v⟩
   | fuel + 1, w, rid =>
     let r := reserve send w
     match r.out with
     | .ok res =>
-      let g := getSelEntry cfg send r.w rid res
+      let g := getSelEntry cfg v send r.w rid res
       match g.out with
       | .ok (e, _) =>
         let d := deleteEntry send g.w rid res
         match d.out with
         | .ok _ => ⟨d.w, .ok e⟩
-        | .ccError c => if c = cfg.ccCancel then getAndClear cfg send fuel d.w rid else ⟨d.w, .ccError c⟩
+        | .ccError c => if c = cfg.ccCancel then getAndClear cfg v send fuel d.w rid else ⟨d.w, .ccError c⟩
         | x => ⟨d.w, castErr x⟩
-      | .ccError c => if c = cfg.ccCancel then getAndClear cfg send fuel g.w rid else ⟨g.w, .ccError c⟩
+      | .ccError c => if c = cfg.ccCancel then getAndClear cfg v send fuel g.w rid else ⟨g.w, .ccError c⟩
       | x => ⟨g.w, castErr x⟩
     | e => ⟨r.w, castErr e⟩
 
